@@ -274,6 +274,8 @@ def run_engine(hname, argv=None):
     if "--only" in argv:
         only = argv[argv.index("--only") + 1]
         configs = [c for c in configs if only in json.dumps(c)]
+        # a partial run (debugging aid) must not replace the evidence of the registered command
+        os.environ.setdefault("VERIF_EVIDENCE_DIR", os.path.join(ROOT, ".scratch", "evidence_partial"))
     results = []
     # a configuration carrying "_split": k is explored by 2^k processes, each forced down one
     # combination of the first k two-sided forks (symx.core.explore(forced=...))
